@@ -1,6 +1,8 @@
 CONSTANTS
   CycleLen = 3
   ChainOver = 1
+  SizeExpLo = 7
+  SizeExpHi = 8
 SPECIFICATION Spec
-INVARIANTS Bounded Outcome Emit
+INVARIANTS Bounded Outcome CntOK Emit
 CHECK_DEADLOCK FALSE
